@@ -370,3 +370,253 @@ def writers_monitor(log) -> str | None:
         elif ev == 'exit':
             writers.discard(i)
     return None
+
+
+# --------------------------------------------------------------------------
+# IDLE runs (C16)
+# --------------------------------------------------------------------------
+import contextlib
+import re
+
+_UNTAGGED = re.compile(rb'^\* (\d+) (EXISTS|RECENT|EXPUNGE|FETCH)(?: \((.*)\))?\r?$')
+_FLAGS = re.compile(rb'FLAGS \(([^)]*)\)')
+
+
+async def settle(limit: int = 20000) -> None:
+    """run the event loop until no handle is ready (three quiet turns in a row)"""
+    loop = asyncio.get_running_loop()
+    quiet = 0
+    for _ in range(limit):
+        await asyncio.sleep(0)
+        if not loop._ready:
+            quiet += 1
+            if quiet >= 3:
+                return
+        else:
+            quiet = 0
+    raise RuntimeError('the server does not become quiescent')
+
+
+@contextlib.contextmanager
+def batch_recorder():
+    """wrap IMAPConnection.write_updates (in this process only) to learn how
+    many untagged responses each IDLE notification batch has and when it is
+    completely written; behaviour is unchanged"""
+    from pymap.imap import IMAPConnection
+    orig = IMAPConnection.write_updates
+
+    async def write_updates(self, untagged):
+        items = list(untagged)
+        conn = self.writer
+        rec = getattr(conn, 'verif_batches', None)
+        if rec is not None:
+            rec.append(len(items))
+        await orig(self, items)
+        if rec is not None:
+            conn.verif_batches_done += 1
+
+    IMAPConnection.write_updates = write_updates
+    try:
+        yield
+    finally:
+        IMAPConnection.write_updates = orig
+
+
+def parse_flags(blob: bytes) -> frozenset:
+    m = _FLAGS.search(blob)
+    if not m:
+        return None
+    return frozenset(f.lower() for f in m.group(1).split() if f.lower() != b'\\recent')
+
+
+class Shadow:
+    """what an IMAP client knows about the selected mailbox from untagged data:
+    one entry per sequence number, flags or None (not told yet)"""
+
+    def __init__(self) -> None:
+        self.msgs: list = []
+        self.errors: list[str] = []
+
+    def feed(self, data: bytes) -> list[bytes]:
+        """apply untagged EXISTS/EXPUNGE/FETCH lines; returns the other lines"""
+        rest = []
+        for line in data.split(b'\n'):
+            if not line.strip():
+                continue
+            m = _UNTAGGED.match(line)
+            if not m:
+                rest.append(line.rstrip(b'\r'))
+                continue
+            n, what, args = int(m.group(1)), m.group(2), m.group(3) or b''
+            if what == b'EXISTS':
+                if n < len(self.msgs):
+                    self.errors.append(f'EXISTS {n} shrinks a mailbox of {len(self.msgs)}')
+                    del self.msgs[n:]
+                while len(self.msgs) < n:
+                    self.msgs.append(None)
+            elif what == b'EXPUNGE':
+                if not 1 <= n <= len(self.msgs):
+                    self.errors.append(f'EXPUNGE {n} out of range 1..{len(self.msgs)}')
+                else:
+                    del self.msgs[n - 1]
+            elif what == b'FETCH':
+                if not 1 <= n <= len(self.msgs):
+                    self.errors.append(f'FETCH {n} out of range 1..{len(self.msgs)}')
+                else:
+                    fl = parse_flags(args)
+                    if fl is not None:
+                        self.msgs[n - 1] = fl
+            elif what == b'RECENT':
+                if n > len(self.msgs):
+                    self.errors.append(f'RECENT {n} exceeds EXISTS {len(self.msgs)}')
+        return rest
+
+    def matches(self, truth: list) -> bool:
+        return len(truth) == len(self.msgs) and all(
+            mine is None or mine == theirs for mine, theirs in zip(self.msgs, truth))
+
+
+MSG = b'From: a@example.com\r\nSubject: t\r\n\r\nbody\r\n'
+
+
+class IdleRun:
+    """One scenario: idling sessions (gated ones are paused inside every
+    drain), writer sessions, a probe session that reads the ground truth."""
+
+    def __init__(self, env, gated: list[bool], n_writers: int = 1) -> None:
+        self.env = env
+        self.gated = list(gated)
+        self.n_writers = n_writers
+        self.idlers = []
+        self.shadows: list[Shadow] = []
+        self.writers = []
+        self.probe = None
+        self.truths: dict[int, list] = {}
+        self.hi = 0
+        self.tag = 0
+        self.ended: dict[int, bytes] = {}
+        self.log: list[dict] = []
+        self.mailbox = b'INBOX'
+
+    async def truth(self) -> list:
+        self.tag += 1
+        await self.probe.send(b'p%d NOOP\r\n' % self.tag)     # FETCH alone may not report expunges
+        self.tag += 1
+        out = await self.probe.send(b'p%d FETCH 1:* (FLAGS)\r\n' % self.tag)
+        sh = Shadow()
+        n = 0
+        for line in out.split(b'\n'):
+            m = _UNTAGGED.match(line)
+            if m and m.group(2) == b'FETCH':
+                n = max(n, int(m.group(1)))
+        sh.msgs = [None] * n
+        sh.feed(out)
+        return list(sh.msgs)
+
+    async def start(self) -> dict:
+        sel = b's SELECT ' + self.mailbox + b'\r\n'
+        self.probe = await self.env.login()
+        await self.probe.send(sel)
+        for _ in range(self.n_writers):
+            w = await self.env.login()
+            await w.send(sel)
+            self.writers.append(w)
+        # every session selects before any IDLE starts: a SELECT sets the mailbox's
+        # update event (claim_recent), which is not a change the model knows about
+        for g in self.gated:
+            c = await self.env.login()
+            await c.send(sel)
+            self.idlers.append(c)
+        self.truths[0] = await self.truth()
+        for c, g in zip(self.idlers, self.gated):
+            await c.send(b'n NOOP\r\n')
+            sh = Shadow()
+            sh.msgs = list(self.truths[0])
+            c.verif_batches = []
+            c.verif_batches_done = 0
+            if g:
+                c.drain_gate = asyncio.Event()
+            c.take()
+            c.feed_nowait(b'i1 IDLE\r\n')
+            self.shadows.append(sh)
+        await settle()
+        return self.observe()
+
+    def observe(self) -> dict:
+        phases, deliv, pushed = [], [], []
+        for s, c in enumerate(self.idlers):
+            data = c.take()
+            pushed.append(data)
+            other = self.shadows[s].feed(data)
+            for line in other:
+                if line.startswith(b'i1 '):
+                    self.ended[s] = line
+            if s in self.ended:
+                phases.append(2 if self.ended[s].startswith(b'i1 OK') else 3)
+            elif c.in_drain.is_set():
+                phases.append(1)
+            else:
+                phases.append(0)
+            deliv.append([k for k, v in sorted(self.truths.items()) if self.shadows[s].matches(v)])
+        obs = {'phase': phases, 'deliv': deliv, 'hi': self.hi,
+               'pushed': [p.decode('latin-1') for p in pushed]}
+        self.log.append(obs)
+        return obs
+
+    async def write(self, w: int, cmds: list[bytes]) -> dict:
+        """a burst: all commands in one write, executed back to back"""
+        buf = b''
+        for cmd in cmds:
+            self.tag += 1
+            buf += b'w%d ' % self.tag + cmd + b'\r\n'
+        out = await self.writers[w].send(buf)
+        self.last_writer_output = out
+        await settle()
+        self.hi += len(cmds)
+        self.truths[self.hi] = await self.truth()
+        await settle()
+        return self.observe()
+
+    async def release(self, s: int) -> tuple[dict, bool]:
+        c = self.idlers[s]
+        done0 = c.verif_batches_done
+        # before the first batch the drain is the one of the continuation "+ Idling."
+        is_cont = len(c.verif_batches) == 0
+        assert c.in_drain.is_set()
+        c.drain_gate.set()
+        c.drain_gate.clear()
+        await settle()
+        last = is_cont or c.verif_batches_done > done0
+        return self.observe(), last
+
+    async def client_line(self, s: int, line: bytes) -> dict:
+        c = self.idlers[s]
+        if c.drain_gate is not None:
+            c.drain_gate.set()          # opened for good
+        c.feed_nowait(line)
+        await settle()
+        return self.observe()
+
+    async def close(self) -> None:
+        """open every gate and hang up, so that no server task is left blocked"""
+        for c in self.idlers:
+            if c.drain_gate is not None:
+                c.drain_gate.set()
+                c.drain_gate = None
+        for c in self.idlers + self.writers + [self.probe]:
+            if c is not None and not c.closed:
+                c.eof = True
+                c._starved.clear()
+                c._data.set()
+        for _ in range(200):
+            if all(c is None or c.task is None or c.task.done()
+                   for c in self.idlers + self.writers + [self.probe]):
+                break
+            await asyncio.sleep(0)
+
+    async def open_all(self) -> dict:
+        for c in self.idlers:
+            if c.drain_gate is not None:
+                c.drain_gate.set()
+        await settle()
+        return self.observe()
